@@ -336,6 +336,29 @@ def contains(s, sub):
     return sub in s
 
 
+def in_shim(item, container):
+    """`item in container` when a concrete str/bytes container meets a proxy item (a C-level __contains__ cannot take it)"""
+    if isinstance(container, str) and isinstance(item, SymStr):
+        return bool(SymStr([ord(c) for c in container]).contains_term(item)) if container.isascii() else core.unsupported("non-ASCII container")
+    if isinstance(container, (bytes, bytearray)) and isinstance(item, core.SymInt):
+        return bool(core.Or([item == b for b in container])) if len(container) else False
+    if isinstance(container, (bytes, bytearray)) and isinstance(item, SymBytes):
+        raise Unsupported("symbolic bytes in concrete bytes")
+    return item in container
+
+
+def method_shim(recv, name, *args):
+    if isinstance(recv, str) and any(isinstance(a, SymStr) for a in args):
+        if not recv.isascii():
+            raise Unsupported("non-ASCII receiver with symbolic argument")
+        recv = SymStr([ord(c) for c in recv])
+    elif isinstance(recv, (bytes, bytearray)) and any(isinstance(a, SymBytes) for a in args):
+        recv = SymBytes(list(recv), type(recv))
+    if name == "join" and isinstance(recv, (str, bytes, bytearray)) and len(args) == 1:
+        return join_shim(recv, args[0])
+    return getattr(recv, name)(*args)
+
+
 def mk_str(chars):
     s = SymStr(chars)
     if all(isinstance(x, builtins.int) for x in s.c):
